@@ -5,6 +5,7 @@ import OrdModel.Proofs.IndexSatsBlock
 import OrdModel.Proofs.IndexSatsTx
 import OrdModel.Index.Run
 import OrdModel.Proofs.IndexSatsWitness
+import OrdModel.Proofs.IndexLiftSatBlock
 /-!
 # C02 — every mined sat is in exactly one place and all sat lookups agree
 
@@ -20,8 +21,10 @@ Status (see notes/C02.md): the lookup clauses are proved for *every* state satis
 invariant; the invariant itself is proved for the empty index and checked on the implementation's
 own table after every block by `partitionOracle`, whose soundness with respect to the invariant
 is `c02_partition_oracle_sound`; its preservation by the real `applyBlock` and hence its validity
-in every reachable state is proved for configurations with the inscription and rune indexes off
-(`c02_reachable_partitioned_partial`); with them on the frame lemmas for those updaters are missing.
+in every reachable state of the full index model is proved for EVERY configuration with the sat
+index on (`c02_reachable_partitioned`; the sat frame of the inscription and rune updaters is
+`c02_sat_frame_inscriptions` / `c02_sat_frame_runes`, Proofs/IndexLiftSat*.lean).  The older
+`…_partial` versions (inscription and rune indexes off) are kept as corollaries.
 -/
 namespace Ord.Index
 open Outcome
@@ -170,40 +173,84 @@ theorem c02_partition_oracle_sound (height : Nat) (rows : List PRow)
 /-- The empty index is partitioned. -/
 theorem c02_initial : SatsPartitionedExact ({} : State) := satsPartitioned_empty
 
-/-- **The invariant holds in every reachable state** — after every prefix of every chain the
-indexer accepts (any transactions, same-block spends, underpaying coinbases, duplicate txids),
-with the sat index on.  `_partial` only in the configuration: inscription and rune indexes off
-(`--index-sats --no-index-inscriptions`, with or without `--index-addresses` /
-`--index-transactions`); with them on, what is missing is the frame lemma "`indexInscriptions` and
-`indexRunesBlock` never touch sat ranges" (notes/C02.md).  The proof goes through the real
-`applyBlock`: `takeInputEntries`, `indexTransactionSats`, the cache writes (`AL.set`, which may
-displace), the coinbase last, lost ranges merged into the null outpoint, `flushCache`. -/
-theorem c02_reachable_partitioned_partial (cfg : Cfg) (hs : cfg.indexSats = true)
-    (hi : cfg.indexInscriptions = false) (hr : cfg.indexRunes = false)
+/-- **Sat frame, inscription updater**: `index_inscriptions` for one transaction (with
+everything under it: `update_inscription_location`, parent links, lost / carried flotsam)
+changes neither OUTPOINT_TO_UTXO_ENTRY, SAT_TO_SATPOINT, the height nor the LostSats statistic,
+leaves value / sat ranges / script of the output entries it is handed alone (it only pushes
+`(sequence number, offset)` pairs), and never gives the special-outpoint entries of the block
+sat ranges. -/
+theorem c02_sat_frame_inscriptions (cfg : Cfg) (height time : Nat) (tx : Tx) (inputs : List (TxIn × UtxoEntry))
+    (ir : Option (List (Nat × Nat))) (ls ls' : LocState)
+    (h : indexInscriptions cfg height time tx inputs ir ls = .ok ls') :
+    ls'.st.utxo = ls.st.utxo ∧ ls'.st.sat2sp = ls.st.sat2sp ∧ ls'.st.height = ls.st.height ∧
+    ls'.st.lostSats = ls.st.lostSats ∧ ls'.outs.map (·.ranges) = ls.outs.map (·.ranges) ∧
+    (NoRanges ls.ctx → NoRanges ls'.ctx) := by
+  have f := indexInscriptions_satSame _ _ _ _ _ _ _ _ h
+  exact ⟨f.utxo, f.sat2sp, f.height, f.lostSats,
+    map_ranges_of_base (indexInscriptions_frame _ _ _ _ _ _ _ _ h).2.2.1,
+    indexInscriptions_noRanges _ _ _ _ _ _ _ _ h⟩
+
+/-- **Sat frame, rune updater**: `index_runes` over a whole block touches none of them. -/
+theorem c02_sat_frame_runes (st : State) (blk : Block) (st' : State) (evs : List Event)
+    (h : indexRunesBlock st blk = .ok (st', evs)) :
+    st'.utxo = st.utxo ∧ st'.sat2sp = st.sat2sp ∧ st'.height = st.height ∧ st'.lostSats = st.lostSats := by
+  have f := indexRunesBlock_satSame _ _ _ h
+  exact ⟨f.utxo, f.sat2sp, f.height, f.lostSats⟩
+
+/-- **The invariant holds in every reachable state of the full index model** — after every
+prefix of every chain the indexer accepts (any transactions, same-block spends, underpaying
+coinbases, duplicate txids, inscriptions, runes), for every configuration with the sat index on
+(inscription / rune / address / transaction indexes on or off, any first-inscription and
+first-rune heights).  The proof goes through the real `applyBlock`: `takeInputEntries`,
+`indexTransactionSats`, the inscription pass (frame), the cache writes (`AL.set`, which may
+displace), the coinbase last, lost ranges merged into the null outpoint together with the lost
+inscriptions, `flushCache`, the rune pass (frame). -/
+theorem c02_reachable_partitioned (cfg : Cfg) (hs : cfg.indexSats = true)
     (chain : List Block) (hc : ChainHeights chain) (st : State) (evs : List Event)
     (h : run cfg chain = .ok (st, evs)) : SatsPartitioned st ∧ st.height = chain.length :=
-  reachable_partition cfg hs hi hr chain hc st evs h
+  reachable_partition_full cfg hs chain hc st evs h
 
 /-- … hence in every such state `find` is exact. -/
-theorem c02_reachable_find_partial (cfg : Cfg) (hs : cfg.indexSats = true)
-    (hi : cfg.indexInscriptions = false) (hr : cfg.indexRunes = false)
+theorem c02_reachable_find (cfg : Cfg) (hs : cfg.indexSats = true)
     (chain : List Block) (hc : ChainHeights chain) (st : State) (evs : List Event)
     (h : run cfg chain = .ok (st, evs)) (sat : Nat) (p : SatPoint) :
     find st sat = .ok (some p) ↔ SatAt st.utxo sat p :=
-  c02_find_iff st (reachable_partition cfg hs hi hr chain hc st evs h).1 sat p
+  c02_find_iff st (reachable_partition_full cfg hs chain hc st evs h).1 sat p
 
 /-- One block step of the same (any state satisfying the invariant, not only reachable ones). -/
-theorem c02_block_preserves_partition_partial (cfg : Cfg) (hs : cfg.indexSats = true)
-    (hi : cfg.indexInscriptions = false) (hr : cfg.indexRunes = false) (st : State) (blk : Block)
+theorem c02_block_preserves_partition (cfg : Cfg) (hs : cfg.indexSats = true) (st : State) (blk : Block)
     (st' : State) (evs : List Event) (hh : blk.height = st.height) (inv : SatsPartitioned st)
     (h : applyBlock cfg st blk = .ok (st', evs)) : SatsPartitioned st' ∧ st'.height = st.height + 1 :=
-  applyBlock_partition cfg hs hi hr st blk st' evs hh inv h
+  applyBlock_partition_full cfg hs st blk st' evs hh inv h
+
+/-- (kept for the record: the earlier version with the inscription and rune indexes off; now a
+corollary of `c02_reachable_partitioned`) -/
+theorem c02_reachable_partitioned_partial (cfg : Cfg) (hs : cfg.indexSats = true)
+    (_hi : cfg.indexInscriptions = false) (_hr : cfg.indexRunes = false)
+    (chain : List Block) (hc : ChainHeights chain) (st : State) (evs : List Event)
+    (h : run cfg chain = .ok (st, evs)) : SatsPartitioned st ∧ st.height = chain.length :=
+  c02_reachable_partitioned cfg hs chain hc st evs h
+
+/-- (corollary of `c02_reachable_find`) -/
+theorem c02_reachable_find_partial (cfg : Cfg) (hs : cfg.indexSats = true)
+    (_hi : cfg.indexInscriptions = false) (_hr : cfg.indexRunes = false)
+    (chain : List Block) (hc : ChainHeights chain) (st : State) (evs : List Event)
+    (h : run cfg chain = .ok (st, evs)) (sat : Nat) (p : SatPoint) :
+    find st sat = .ok (some p) ↔ SatAt st.utxo sat p :=
+  c02_reachable_find cfg hs chain hc st evs h sat p
+
+/-- (corollary of `c02_block_preserves_partition`) -/
+theorem c02_block_preserves_partition_partial (cfg : Cfg) (hs : cfg.indexSats = true)
+    (_hi : cfg.indexInscriptions = false) (_hr : cfg.indexRunes = false) (st : State) (blk : Block)
+    (st' : State) (evs : List Event) (hh : blk.height = st.height) (inv : SatsPartitioned st)
+    (h : applyBlock cfg st blk = .ok (st', evs)) : SatsPartitioned st' ∧ st'.height = st.height + 1 :=
+  c02_block_preserves_partition cfg hs st blk st' evs hh inv h
 
 /-- One transaction permutes sats: the ordinals of its outputs, in order, followed by the
 leftover are the ordinals of its inputs; so distinctness, minedness and non-emptiness of the
 ranges carry over from the spent entries to the created ones.  (`_partial`: this is the
-per-transaction step of the invariant; the lifting through `indexTx`/`applyBlock` — cache,
-table, flush, frame of the inscription and rune updaters — is not proved, see notes/C02.md.) -/
+per-transaction step of the invariant; its lifting through `indexTx`/`applyBlock` is
+`c02_block_preserves_partition`.) -/
 theorem c02_tx_permutes_sats_partial (values : List Nat) (inputs : Ranges) (hq : WF inputs)
     (hn : (den inputs).Nodup) (bound : Nat) (hb : ∀ s ∈ den inputs, s < bound) (t : TxSats)
     (h : indexTransactionSats values inputs = some t) :
@@ -256,6 +303,12 @@ example : ChainHeights dupCoinbaseChain := by
   have : i = 0 ∨ i = 1 ∨ i = 2 := by simp [dupCoinbaseChain] at hi; omega
   rcases this with rfl | rfl | rfl <;> rfl
 example : satsOnlyCfg.indexSats = true ∧ satsOnlyCfg.indexInscriptions = false ∧ satsOnlyCfg.indexRunes = false := by decide
+
+/-- every index on: the hypotheses of `c02_reachable_partitioned` are satisfiable with the
+inscription, rune, address and transaction indexes all enabled (the chain is accepted) -/
+def allOnCfg : Cfg := ⟨true, true, true, true, true, 0, 0, 0⟩
+set_option maxRecDepth 100000 in
+example : allOnCfg.indexSats = true ∧ (stateAfter allOnCfg dupCoinbaseChain).isSome = true := by decide
 
 example : SatsPartitioned ({} : State) := satsPartitioned_empty.toSatsPartitioned
 example : partitionOracle 1 [⟨⟨1, 0⟩, 5000000000, [(0, 5000000000)]⟩] [] = true := by
